@@ -626,6 +626,22 @@ class Assembler:
     def cur_line(self):
         return sum(c.count("\n") for c in self.out) + 1
 
+    def check_same_item(self, pa, pb):
+        """%sameitem A B: item A (not emitted) must be token-for-token the item B that the unit
+        emits (two source files define the same private constant / enum; the single-module unit
+        can hold only one).  A difference is a scaffolding failure (undecided), never a pass."""
+        def toks(path):
+            fi, cands = self.src.find(path)
+            cands = [c for c in (cands or []) if c.kind != "impl"]
+            if not cands:
+                raise ExtractError(f"lost anchor: item {path} not found")
+            it = cands[0]
+            return [fi.v.text(q) for q in range(it.start, it.end) if fi.v.t[q].kind not in (WS, COMMENT)]
+        ta, tb = toks(pa), toks(pb)
+        if ta != tb:
+            raise ExtractError(f"items {pa} and {pb} are no longer identical: the unit would verify {pb} in place of {pa}")
+        self.log.append({"rule": "R18", "file": "", "line": 0, "note": f"{pa} is represented by the identical item {pb}"})
+
     def emit_item(self, path, flags):
         fi, cands = self.src.find(path)
         if not cands:
@@ -990,6 +1006,8 @@ impl core::ops::BitOr for {name} {{
                 else:
                     close_impl()
                 self.emit_item(e[1], e[2])
+            elif e[0] == "sameitem":
+                self.check_same_item(e[1], e[2])
             elif e[0] == "lemma":
                 close_impl()
                 lm = e[1]
